@@ -21,7 +21,7 @@ From Tinode Require Import Base.Util Pure.Acs Sys.Topic Sys.TopicTac Sys.TopicFr
   Sys.TopicCohC08 Sys.TopicCohC08Proofs Sys.TopicCohC08Step Sys.TopicCohC08Run Sys.TopicCohC08Query Sys.TopicCohC08Wit
   Sys.TopicCohC08Reject Sys.TopicCohC08Ack Sys.TopicCohC08Wit2 Sys.TopicCohC08Keys Sys.TopicCohC08Bisim
   Sys.PermBranchC08c Sys.PermBranchC08cProofs Sys.PermAckFullC08c Sys.PermBranchC08cWit
-  Sys.MarksLagC08d.
+  Sys.MarksLagC08d Sys.TopicKindsC07 Sys.KindsOfflineC08d.
 Import ListNotations.
 Open Scope Z_scope.
 
@@ -169,6 +169,50 @@ Theorem c08_reported_marks_reload_invisible : forall h x f sid,
   snd (step dr nr sm f (reload (fst (run dr nr sm x h))) (OGetDesc sid)).
 Proof. exact (run_marks_reload_invisible_c08d dr nr sm). Qed.
 End C08.
+
+(* ------------------------------------------------------------------ *)
+(* part d, p2p topics (kinds model Sys/TopicKindsC07.v): {set sub mode} for one's own subscription through the live
+   topic and through the hub (session not attached / topic not loaded), the topic named usrXXX or p2pXXXYYY *)
+(* the hub path of the kinds model, on its own *)
+Theorem c08_kinds_offline_path : forall w sid uid root orig target mode k,
+  expand uid orig = inl k -> k_attached (tget k (w_topics w)) sid = false ->
+  kstep w (KSetSub sid uid root orig target mode) =
+  let t := tget k (w_topics w) in
+  match off_set_c08d (key_cat k) (kt_rows t) sid uid target mode with
+  | (None, o) => (w, o)
+  | (Some rows', o) => (mkWorld (w_acc w) (tset k (mkKt (kt_exists t) rows' (kt_cache t)) (w_topics w)), o)
+  end.
+Proof. exact kstep_offline_c08d. Qed.
+(* ACK => STORED on the hub path, every topic kind: a {ctrl 200 acs=want/given} goes to the requester, is about
+   the requester, and his live stored row holds exactly that want and that given *)
+Theorem c08_kinds_offline_ack_is_stored : forall cat rows sid uid target mode rows' o s' named wt g,
+  off_set_c08d cat rows sid uid target mode = (rows', o) -> In (s', KAcs 200 named wt g) o ->
+  s' = sid /\ named = 0%N /\
+  exists rows1 r, rows' = Some rows1 /\ alookup uid rows1 = Some r /\ kr_want r = wt /\ kr_given r = g /\ kr_del r = false.
+Proof. exact offline_ack_stored_c08d. Qed.
+(* the FORM of the name (usrXXX / p2pXXXYYY) does not matter: requests naming the same topic do the same *)
+Theorem c08_kinds_name_form_irrelevant : forall w sid uid root o1 o2 target mode,
+  expand uid o1 = expand uid o2 -> (match o1, o2 with OUsr _, _ | ORawP2P _ _, _ => True | _, _ => o1 = o2 end) ->
+  kstep w (KSetSub sid uid root o1 target mode) = kstep w (KSetSub sid uid root o2 target mode).
+Proof. exact name_form_c08d. Qed.
+(* LIVE = OFFLINE: on a p2p topic whose cached record of the requester is his stored row, thisUserSub (live topic)
+   and replyOfflineTopicSetSub (hub) leave the SAME stored rows for every mode string that names a mode: the
+   request is clipped to JRWPA and keeps A whether or not the topic is in memory *)
+Theorem c08_p2p_offline_set_same_as_live : forall rows c sid uid root mode r,
+  mode <> [] ->
+  (forall m0, parse_acs mode = Some m0 -> (m0 =? ModeUnset)%N = false) ->
+  alookup uid rows = Some r -> kr_del r = false -> alookup uid (kc_users c) = Some r ->
+  is_owner (kr_want r) = false -> is_owner (kr_given r) = false ->
+  let '(live_rows, _, _, _) := k_this_user_sub CP2P rows c uid root mode false in
+  live_rows = match fst (off_set_c08d CP2P rows sid uid 0 mode) with Some r' => r' | None => rows end.
+Proof. exact p2p_offline_same_rows_c08d. Qed.
+Print Assumptions c08_kinds_offline_path.
+Print Assumptions c08_kinds_offline_ack_is_stored.
+Print Assumptions c08_kinds_name_form_irrelevant.
+Print Assumptions c08_p2p_offline_set_same_as_live.
+Example c08_ex_mode_names_a_mode :
+  match parse_acs [74; 82; 87; 83; 68]%N with Some m0 => (m0 =? ModeUnset)%N = false | None => True end.
+Proof. exact mode_abs_JRWSD_c08d. Qed.
 
 (* ------------------------------------------------------------------ *)
 (* the full statements and their refutations *)
